@@ -6,6 +6,10 @@ import (
 	"log/slog"
 	"os"
 	"testing"
+
+	"github.com/ovh/kmip-go/ttlv"
+
+	"verif/harness/memnet"
 )
 
 func TestMain(m *testing.M) {
@@ -23,3 +27,7 @@ func safely(f func() error) (err error) {
 	}()
 	return f()
 }
+
+func ttlvMarshal(v any) []byte { return ttlv.MarshalTTLV(v) }
+
+func setPeerWindow(c *memnet.Conn, n int) { c.SetPeerWindow(n) }
